@@ -52,6 +52,7 @@ type Contract struct {
 	Pure     bool
 	File     string
 	Line     int
+	Counted  bool // every call increments ghost("calls:<Key>")
 	Trusted  bool // contract is assumed, body not verified (listed in evidence)
 	NoFrame  bool
 	Ghost    map[string]string
@@ -82,7 +83,7 @@ type ContractSet struct {
 }
 
 var clauseKeywords = map[string]bool{"func": true, "interface": true, "spec": true, "abstract": true, "requires": true, "ensures": true,
-	"assigns": true, "loop": true, "decreases": true, "arith": true, "pure": true, "lemma": true, "trusted": true, "noframe": true, "invariant": true, "nonnil": true, "names": true, "ospec": true, "checks": true}
+	"assigns": true, "loop": true, "decreases": true, "arith": true, "pure": true, "lemma": true, "trusted": true, "noframe": true, "invariant": true, "nonnil": true, "names": true, "ospec": true, "checks": true, "counted": true}
 
 func loadContracts(files []string) (*ContractSet, error) {
 	cs := &ContractSet{funcs: map[string]*Contract{}, ifaces: map[string]*Contract{}, specs: map[string]*specFn{}, invs: map[string][]*TypeInv{}, nonnil: map[string]bool{}}
@@ -250,6 +251,10 @@ func (cs *ContractSet) loadFile(path string) error {
 		case "trusted":
 			if cur != nil {
 				cur.Trusted = true
+			}
+		case "counted":
+			if cur != nil {
+				cur.Counted = true
 			}
 		case "noframe":
 			if cur != nil {
